@@ -49,7 +49,9 @@ func (g *gen) ctx(allowP0 bool, big bool) *apd.Context {
 	case 8:
 		p = int64(1 + g.r.Intn(12))
 	default:
-		p = g.pick(1, 2, 3, 5, 9)
+		// ... and the precisions next to a machine-word boundary of the coefficient (10^19 < 2^64 < 10^20,
+		// 10^38 < 2^128 < 10^39): a fast path on uint64 / the inline words has its last case there
+		p = g.pick(1, 2, 3, 5, 9, 18, 19, 19, 20, 38, 39)
 	}
 	if allowP0 && g.r.Intn(12) == 0 {
 		p = 0
